@@ -74,6 +74,15 @@ func c19pool() []poolEntry {
 				return a
 			}})
 	}
+	// byte strings that end inside a multi-byte sequence or an escape, bare and after the start of a JSON document
+	for i, tail := range []string{"\xe2\x80", "\xe2", "\xf0\x9f\x98", "\xc3", "\\", "\\u00", "\\ud83d", "%", "%!", "\x00"} {
+		for j, head := range []string{"", "\"", "[1,\"ab", "{\"k\":\"v"} {
+			tail, head := tail, head
+			p = append(p,
+				poolEntry{fmt.Sprintf("L:ts%d.%d", i, j), func() ugo.Object { return ugo.String(head + tail) }},
+				poolEntry{fmt.Sprintf("L:tb%d.%d", i, j), func() ugo.Object { return ugo.Bytes(head + tail) }})
+		}
+	}
 	return p
 }
 
